@@ -15,19 +15,24 @@ from fractions import Fraction
 
 import gds_codec as G
 
-UNITS = [(Fraction(1, 1000), Fraction(1, 10 ** 9)), (Fraction(1), Fraction(1, 10 ** 6)), (Fraction(1, 2000), Fraction(1, 2 * 10 ** 9))]
-REQ = [0.0, 1e-6, 1e-9]
-NCTX = 9
+UNITS = [(Fraction(1, 1000), Fraction(1, 10 ** 9)), (Fraction(1), Fraction(1, 10 ** 6)), (Fraction(1, 2000), Fraction(1, 2 * 10 ** 9)),
+         (Fraction(1, 10 ** 6), Fraction(1, 10 ** 9)), (Fraction(1, 100), Fraction(254, 10 ** 7))]   # last: 0.01 inch grid, db unit 25.4 um
+REQ = [0.0, 1e-6, 1e-9, 2e-6]
+NU, NR = len(UNITS), len(REQ)
+NCTX = NU * NR   # ctx = units_i + NU * req_i
 TOLS = [0.0, 0.005]
 
 TAGS = [(1, 2), (32767, 32767), (0, 0)]
 PROPS = [[], [(1, b'a')], [(2, b'ab')], [(1, b'abc'), (127, b'abcd')], [(126, b'wxyz'), (5, b'q')]]
 I32MIN, I32MAX = -2 ** 31, 2 ** 31 - 1
-BND_PTS = {0: [(0, 0), (1000, 0), (1200, 900), (300, 1400), (-500, 700)],
-           1: [(I32MIN, I32MIN), (I32MAX, I32MIN), (I32MAX, I32MAX), (0, I32MAX), (I32MIN, 5)]}
+BND_PTS = {0: [(0, 0), (1000, 0), (1200, 900), (300, 1400), (-500, 700), (-900, 100), (-400, -350)],
+           1: [(I32MIN, I32MIN), (I32MAX, I32MIN), (I32MAX, I32MAX), (0, I32MAX), (I32MIN, 5), (-7, -3), (I32MIN + 1, I32MIN + 1)]}
 BOX_PTS = {0: [(-300, -200), (900, -200), (900, 400), (-300, 400)],
            1: [(I32MIN, I32MIN), (I32MAX, I32MIN), (I32MAX, I32MAX), (I32MIN, I32MAX)]}
 TRANS = [None] + [(r, m, a) for r in (False, True) for m in (None, 1, Fraction(5, 2)) for a in (None, 0, 90, 180, 270, 30)]
+# larger transformation alphabet of the reference families (appended, so indices < 37 keep their meaning)
+TRANS_X = TRANS + [(r, m, a) for r in (False, True) for m in (None, 1, Fraction(5, 2), Fraction(1, 2), 100) for a in (None, 0, 90, 180, 270, 30, 45, 360, -90)
+                   if (r, m, a) not in TRANS]
 PRES = [None] + [(f, v, h) for f in range(4) for v in range(3) for h in range(3)]
 PTW = [(None, None), (0, 0), (1, 40), (2, -25), (None, 40), (4, None)]
 STRINGS = [b'a', b'ab', b'abc']
@@ -35,10 +40,9 @@ WIDTHS = [None, 0, 100, -60]
 BGN = [None, 150, -40, 0]
 END = [None, 80, -30, 0]
 PATHTYPES = [None, 0, 1, 2, 4]
-PATH_PTS = {2: [(0, 0), (2000, 0)], 3: [(0, 0), (2000, 0), (2000, -1500)]}
-PTSPLIT = [(2,), (3,), (2, 1)]
+PATH_PTS = {2: [(0, 0), (2000, 0)], 3: [(0, 0), (2000, 0), (2000, -1500)], 4: [(0, 0), (2000, 0), (2000, -1500), (-700, -1500)]}
 PTSPLIT1 = [(1, 1), (1, 2), (1, 1, 1)]
-COLROW = [(1, 1), (2, 3), (3, 1)]
+COLROW = [(1, 1), (2, 3), (3, 1), (4, 4), (1, 5)]
 
 
 def masks_to_split(n, mask):
@@ -54,7 +58,10 @@ def masks_to_split(n, mask):
     return tuple(split)
 
 
-BND_SPLITS = [(nv, masks_to_split(nv + 1, m)) for nv in (3, 4, 5) for m in range(1 << nv)]
+BND_SPLITS = [(nv, masks_to_split(nv + 1, m)) for nv in (3, 4, 5, 6, 7) for m in range(1 << nv)]   # first 56: nv 3..5
+BND_QUICK = 56
+# every composition of 2, 3 and 4 path points into XY records (first 3 entries: the unsplit/simple ones)
+PTSPLIT = [(2,), (3,), (2, 1)] + [sp for n in (2, 3, 4) for sp in (masks_to_split(n, m) for m in range(1 << (n - 1))) if sp not in ((2,), (3,), (2, 1))]
 BOX_SPLITS = [masks_to_split(5, m) for m in range(16)]
 
 
@@ -161,7 +168,7 @@ def _place(cells_top, kid, target):
 
 
 def fam_sref(v):
-    t, target, par, dc = TRANS[v[0]], v[1], v[2], v[3]
+    t, target, par, dc = TRANS_X[v[0]], v[1], v[2], v[3]
     name = 'KID' if par else 'KIDS'
     el = dict({'kind': 'sref', 'sname': name, 'xy': (-1500, 2500)}, **trans_fields(t))
     deco(el, dc)
@@ -170,7 +177,7 @@ def fam_sref(v):
 
 
 def fam_aref(v):
-    t, (cols, rows), sign, target, dc = TRANS[v[0]], COLROW[v[1]], v[2], v[3], v[4]
+    t, (cols, rows), sign, target, dc = TRANS_X[v[0]], COLROW[v[1]], v[2], v[3], v[4]
     r, m, a = t if t else (False, None, None)
     dx, dy = (100, 70) if sign == 0 else (-100, 70)
     pts = aref_points((500, -300), cols, rows, dx, dy, r, a or 0)
@@ -287,6 +294,19 @@ def pair_alphabet(thorough):
             ('aref_1x1', {'kind': 'aref', 'sname': 'KID', 'cols': 1, 'rows': 1, 'xy': aref_points((7, 7), 1, 1, 100, 70, False, 0)}),
             ('box_props', {'kind': 'box', 'layer': 2, 'boxtype': 2, 'xy': BOX_PTS[0], 'props': [(126, b'wxyz'), (5, b'q')]}),
             ('bnd_extreme', {'kind': 'boundary', 'layer': 32767, 'datatype': 32767, 'xy': BND_PTS[1][:4]}),
+            ('text_pt2_w40', text_el(None, (2, 40), None, b'abc')),
+            ('text_w0', text_el(None, (None, 0), None, b'ab')),
+            ('text_font_only', text_el((2, 0, 0), (None, None), None, b'a')),
+            ('path_w100_pt1', path_el(1, 100, None, None, (2,))),
+            ('path_w1', path_el(None, 1, None, None, (2,))),
+            ('path_wneg1', path_el(None, -1, None, None, (3,))),
+            ('path_4pts_split', path_el(None, None, None, None, (1, 3))),
+            ('box_flags', {'kind': 'box', 'layer': 3, 'boxtype': 0, 'xy': BOX_PTS[0], 'elflags': 2, 'plex': 5}),
+            ('sref_full_noprops', dict({'kind': 'sref', 'sname': 'KID', 'xy': (0, 0)}, **trans_fields((True, Fraction(1, 2), 45)))),
+            ('sref_props2', {'kind': 'sref', 'sname': 'KID', 'xy': (8, 9), 'props': [(1, b'abc'), (2, b'abcd')]}),
+            ('aref_reflect', dict({'kind': 'aref', 'sname': 'KID', 'cols': 2, 'rows': 2, 'xy': aref_points((0, 0), 2, 2, 100, 70, True, 0)}, **trans_fields((True, None, None)))),
+            ('aref_prop', {'kind': 'aref', 'sname': 'KID', 'cols': 4, 'rows': 4, 'xy': aref_points((1, 1), 4, 4, 100, 70, False, 0), 'props': [(7, b'ap')]}),
+            ('bnd_7pts_split', {'kind': 'boundary', 'layer': 8, 'datatype': 8, 'xy': BND_PTS[0][:7], 'syn': {'xy_split': (1, 6, 1)}}),
         ]
     return A
 
@@ -305,17 +325,45 @@ def fam_pairs(v, alphabet):
     return cells, {'kind': 'pair', 'first': n1, 'second': n2, 'placement': ('same_cell', 'separate_cells')[placement]}
 
 
+def fam_triples(v, alphabet):
+    i, j, k = v
+    (n1, e1), (n2, e2), (n3, e3) = alphabet[i], alphabet[j], alphabet[k]
+    cells = [kid_cell('KID'), {'name': 'TOP', 'elements': [e1, e2, e3]}]
+    return cells, {'kind': 'triple', 'first': n1, 'second': n2, 'third': n3}
+
+
+# streams that repeat an attribute number inside one element.  The specification requires the attribute
+# numbers of one element to be distinct, so these are OUTSIDE the legal alphabet: they are enumerated and
+# judged only for memory safety and coherence (see c03_compare.cmp_props).
+DUP_VALUES = [b'a', b'ab', b'abcdefg', b'xy']
+DUP_ARR = ['AA', 'ABA', 'AAB']
+
+
+def fam_dupattr(v):
+    kind, a, b, arr = v
+    base = [{'kind': 'boundary', 'layer': 1, 'datatype': 2, 'xy': BND_PTS[0][:3]}, path_el(None, 100, None, None, (2,)),
+            {'kind': 'sref', 'sname': 'KID', 'xy': (10, 20)}, text_el(None, (None, None), None, b'ab')][kind]
+    first, second, other = (5, DUP_VALUES[a]), (5, DUP_VALUES[b]), (6, b'other')
+    props = {'AA': [first, second], 'ABA': [first, other, second], 'AAB': [first, second, other]}[DUP_ARR[arr]]
+    el = dict(base, props=props)
+    return [kid_cell('KID'), {'name': 'TOP', 'elements': [el]}], {'kind': el['kind'], 'dup_first_len': len(DUP_VALUES[a]), 'dup_second_len': len(DUP_VALUES[b]),
+                                                                 'arrangement': DUP_ARR[arr], 'duplicate_propattr': 1}
+
+
 FAMILIES = {
     'header': ([16, 3, 6], fam_header),
     'order': ([24, 2], fam_order),
     'path_xy1': ([3, 2, 2], fam_path_xy1),
-    'sref': ([37, 3, 2, 2], fam_sref),
-    'aref': ([37, 3, 2, 3, 2], fam_aref),
+    'sref': ([len(TRANS_X), 3, 2, 2], fam_sref),
+    'aref': ([len(TRANS_X), len(COLROW), 2, 3, 2], fam_aref),
     'box': ([16, 2, 3, 2, 2, 5], fam_box),
-    'path': ([5, 4, 4, 4, 3, 2], fam_path),
+    'path': ([5, 4, 4, 4, len(PTSPLIT), 2], fam_path),
     'pairs_q': ([len(PAIR_Q), len(PAIR_Q), 2], lambda v: fam_pairs(v, PAIR_Q)),
     'pairs_t': ([len(PAIR_T), len(PAIR_T), 2], lambda v: fam_pairs(v, PAIR_T)),
-    'boundary': ([56, 2, 3, 2, 2, 5], fam_boundary),
+    'triples_q': ([len(PAIR_Q)] * 3, lambda v: fam_triples(v, PAIR_Q)),
+    'triples_t': ([len(PAIR_T)] * 3, lambda v: fam_triples(v, PAIR_T)),
+    'dupattr': ([4, 4, 4, 3], fam_dupattr),
+    'boundary': ([len(BND_SPLITS), 2, 3, 2, 2, 5], fam_boundary),
     'text': ([37, 6, 37, 3, 2], fam_text),
 }
 
@@ -333,7 +381,7 @@ def make_d1(family, index, ctx):
     r = builder(v)
     cells, tags = r[0], r[1]
     hdr = r[2] if len(r) > 2 else {}
-    ui, ri = ctx % 3, ctx // 3
+    ui, ri = ctx % NU, ctx // NU
     layout = dict({'libname': 'LIB' if (index + ctx) % 2 else 'LIBR', 'units': G.encoded_units(*UNITS[ui]), 'cells': cells}, **hdr)
     tol = TOLS[(index + ctx) % 2]
     tags = dict(tags, units=ui, req=REQ[ri], family=family)
@@ -341,7 +389,7 @@ def make_d1(family, index, ctx):
 
 
 def d1_nontrivial(layout, family):
-    if family.startswith('pairs'):
+    if family.startswith('pairs') or family.startswith('triples'):
         return True
     if any(layout.get(k) is not None for k in ('reflibs', 'fonts', 'attrtable', 'generations', 'format')):
         return True
@@ -375,19 +423,28 @@ def text_quick_indices():
 def d1_plan(tier):
     plan = []
     full = lambda f: range(family_size(f))
+    nq, nt = len(PAIR_Q), len(PAIR_T)
     if tier == 'quick':
-        for f in ('header', 'order', 'path_xy1', 'sref', 'aref', 'box', 'path'):
-            plan.append((f, full(f), 'cycle', 'every variant, context (UNITS x requested unit) cycled with the index'))
-        plan.append(('pairs_q', full('pairs_q'), 'cycle', 'every ordered pair of the %d-element reduced alphabet x {same cell, separate cells}, context cycled' % len(PAIR_Q)))
-        plan.append(('boundary', full('boundary'), 'cycle', 'every variant, context cycled'))
+        cyc = 'every variant, context (%d UNITS x %d requested units) cycled with the index' % (NU, NR)
+        for f in ('header', 'order', 'path_xy1', 'dupattr', 'sref', 'aref', 'box', 'path'):
+            plan.append((f, full(f), 'cycle', cyc))
+        plan.append(('pairs_q', full('pairs_q'), 'cycle', 'every ordered pair of the %d-element reduced alphabet x {same cell, separate cells}, context cycled' % nq))
+        plan.append(('triples_q', full('triples_q'), 'cycle', 'every ordered triple of the %d-element reduced alphabet in one cell, context cycled' % nq))
+        plan.append(('boundary', range(BND_QUICK * 120), 'cycle', 'every variant with 3-5 vertices (XY split at every subset of positions), context cycled'))
         plan.append(('text', text_quick_indices(), 'cycle', 'all 37x37 presentation x transformation combinations, pathtype/width, string parity, ELFLAGS/PLEX/property and context cycled'))
     else:
-        for f in ('header', 'order', 'path_xy1', 'sref', 'aref', 'box', 'path'):
-            plan.append((f, full(f), 'all', 'every variant x all 9 contexts (3 UNITS x 3 requested units)'))
-        plan.append(('pairs_t', full('pairs_t'), (0, 4, 8), 'every ordered pair of the %d-element reduced alphabet x {same cell, separate cells} x 3 contexts' % len(PAIR_T)))
-        plan.append(('boundary', full('boundary'), 'all', 'every variant x all 9 contexts'))
-        plan.append(('text', full('text'), 'cycle', 'full product presentation x pathtype/width x transformation x string parity x ELFLAGS/PLEX/property, context cycled'))
+        allc = 'every variant x all %d contexts (%d UNITS x %d requested units)' % (NCTX, NU, NR)
+        for f in ('header', 'order', 'path_xy1', 'dupattr', 'sref', 'aref', 'box', 'path'):
+            plan.append((f, full(f), 'all', allc))
+        plan.append(('pairs_t', full('pairs_t'), 'all', 'every ordered pair of the %d-element reduced alphabet x {same cell, separate cells} x all %d contexts' % (nt, NCTX)))
+        plan.append(('triples_q', full('triples_q'), 'all', 'every ordered triple of the %d-element reduced alphabet in one cell x all %d contexts' % (nq, NCTX)))
+        plan.append(('triples_t', full('triples_t'), TRIPLE_CTX, 'every ordered triple of the %d-element reduced alphabet in one cell x %d contexts' % (nt, len(TRIPLE_CTX))))
+        plan.append(('boundary', full('boundary'), 'all', 'every variant with 3-7 vertices (XY split at every subset of positions) x all %d contexts' % NCTX))
+        plan.append(('text', full('text'), 'all', 'full product presentation x pathtype/width x transformation x string parity x ELFLAGS/PLEX/property x all %d contexts' % NCTX))
     return plan
+
+
+TRIPLE_CTX = (0, 7, 14)
 
 
 def ctxs_for(rule, index):
